@@ -129,19 +129,103 @@ k1h!(c01_k1_keeper_collide_3, 1, 1, 3);
 k1h!(c01_k1_keeper_distinct_3, 1, 2, 3);
 k1h!(c01_k1_keeper_collide_4, 1, 1, 4);
 
-/// Smallest rung, concrete schedule (the one the reading predicted to fail): insert v1, insert v2, write of v1 completes.
-verif_harness! { c01_k1_keeper_supersede, 6, {
+/// Concrete schedules (keys, order of enqueue / write-completion literal; values symbolic).  `sched` is a list of steps:
+/// (true, key_idx) = enqueue the next version of key A(0)/B(1); (false, i) = the write of the i-th enqueued piece completes.
+fn k1c<const N: usize>(hash_b: u64, sched: [(bool, usize); N]) {
+    const A: u64 = 16;
+    const B: u64 = 17;
     let keeper: K = Keeper::new(1);
-    let key: u64 = kani::any();
-    let hash: u64 = 1;
-    let r1 = keeper.insert(piece(key, 1, hash));
-    let r2 = keeper.insert(piece(key, 2, hash));
-    drop(r1);
-    let got = keeper.get(hash, &key);
-    assert!(got.is_some(), "C01-K1: newest version is still in the write queue but the lookup misses it (an older on-disk version would be served)");
-    assert!(*got.as_ref().unwrap().value() == 2);
+    let salt: u64 = kani::any();
+    kani::assume(salt < (1 << 32));
+    let mut refs: [Option<R>; N] = std::array::from_fn(|_| None);
+    let mut meta: [(usize, u64); N] = [(0, 0); N];
+    let mut newest: [u64; 2] = [0, 0];
+    let mut n_enq = 0usize;
+    let mut version = 0u64;
+    let mut s = 0;
+    while s < N {
+        let (enq, x) = sched[s];
+        if enq {
+            let (key, hash) = if x == 0 { (A, 1) } else { (B, hash_b) };
+            version += 1;
+            let val = (salt << 8) | version; // symbolic payload, literal version tag
+            refs[n_enq] = Some(keeper.insert(piece(key, val, hash)));
+            meta[n_enq] = (x, val);
+            newest[x] = val;
+            n_enq += 1;
+        } else {
+            let r = refs[x].take().expect("harness schedule: completing a write twice");
+            drop(r);
+        }
+        // oracle
+        let mut ki = 0;
+        while ki < 2 {
+            let (key, hash) = if ki == 0 { (A, 1) } else { (B, hash_b) };
+            let got = keeper.get(hash, &key);
+            let mut newest_alive = false;
+            let mut j = 0;
+            while j < N {
+                if refs[j].is_some() && meta[j].0 == ki && meta[j].1 == newest[ki] {
+                    newest_alive = true;
+                }
+                j += 1;
+            }
+            match &got {
+                Some(p) => {
+                    assert!(*p.key() == key, "C17/C01-K1: write queue answered a lookup with another key's piece");
+                    assert!(*p.value() == newest[ki], "C01-K1: write queue returned an older version than the newest queued one");
+                }
+                None => assert!(!newest_alive, "C01-K1: newest version is still in the write queue but the lookup misses it (an older on-disk version would be served)"),
+            }
+            std::mem::forget(got);
+            ki += 1;
+        }
+        s += 1;
+    }
     kani::cover!(true, "end reached");
-    std::mem::forget((got, r2, keeper));
+    std::mem::forget(refs);
+    std::mem::forget(keeper);
+}
+const E_A: (bool, usize) = (true, 0);
+const E_B: (bool, usize) = (true, 1);
+const fn done(i: usize) -> (bool, usize) {
+    (false, i)
+}
+// v1 queued, v2 queued, write of v1 completes (then of v2)
+verif_harness! { c01_k1_keeper_supersede, 6, { k1c(1, [E_A, E_A, done(0), done(1)]); } }
+// v1, v2 queued, write of v2 completes first (out of order), then v1
+verif_harness! { c01_k1_keeper_supersede_rev, 6, { k1c(1, [E_A, E_A, done(1), done(0)]); } }
+// three versions, middle one completes
+verif_harness! { c01_k1_keeper_three, 6, { k1c(1, [E_A, E_A, E_A, done(1), done(0)]); } }
+// twins (full 64-bit collision): completing one key's write leaves the other key's piece queued
+verif_harness! { c17_keeper_twins, 6, { k1c(1, [E_A, E_B, done(0), E_A, done(1)]); } }
+verif_harness! { c17_keeper_twins_supersede, 6, { k1c(1, [E_A, E_B, E_A, done(0), done(1)]); } }
+// distinct hashes
+verif_harness! { c01_k1_keeper_distinct, 6, { k1c(2, [E_A, E_B, E_A, done(0)]); } }
+
+verif_harness! { exp_keeper_a_insert, 6, {
+    let keeper: K = Keeper::new(1);
+    let r = keeper.insert(piece(16, kani::any(), 1));
+    kani::cover!(true, "end reached");
+    std::mem::forget((r, keeper));
+} }
+verif_harness! { exp_keeper_b_insert_get, 6, {
+    let keeper: K = Keeper::new(1);
+    let v: u64 = kani::any();
+    let r = keeper.insert(piece(16, v, 1));
+    let g = keeper.get(1, &16u64);
+    assert!(*g.as_ref().unwrap().value() == v);
+    kani::cover!(true, "end reached");
+    std::mem::forget((r, g, keeper));
+} }
+verif_harness! { exp_keeper_c_insert_drop, 6, {
+    let keeper: K = Keeper::new(1);
+    let r = keeper.insert(piece(16, kani::any(), 1));
+    drop(r);
+    let g = keeper.get(1, &16u64);
+    assert!(g.is_none());
+    kani::cover!(true, "end reached");
+    std::mem::forget((g, keeper));
 } }
 
 // native replay of counterexamples: bin/check writes the unit test Kani generated (`--concrete-playback=print`) into the
